@@ -76,10 +76,6 @@ def identicalAtoms (tdec tref : List Atom) (chain : Str) (names : List Str) : Ex
     | some d, some r => .ok (ptOf d, ptOf r)
     | _, _ => .error .indexError)
 
-/-- the rows `sql.get('x,y,z', chainID=chain, name=names)` in table order -/
-def chainBackbone (t : List Atom) (chain : Str) (names : List Str) : List Pt :=
-  (t.filter (fun a => decide (a.chainID = chain) && decide (a.name ∈ names))).map ptOf
-
 /-- What the tail of `compute_lrmsd_pdb2sql` does with the shapes of its arguments (NumPy arrays or lists):
     no fitting point → the translation is a scalar `nan` and `any(p0 > eps)` raises `TypeError`; different numbers
     of fitting points → `ValueError`; no evaluation point → `xyz_decoy_short += tr_decoy` cannot be broadcast. -/
@@ -102,19 +98,13 @@ def lrmsdSql (tdec tref : Except Err (List Atom)) (enforce : Bool) : Outcome := 
   if chainsDecoy ≠ chainsRef then throw Err.valueError
   let chain1 ← chainAt chainsDecoy 0
   let chain2 ← chainAt chainsDecoy 1
-  -- positional extraction: xyz_decoy_A, xyz_ref_A, xyz_decoy_B, xyz_ref_B
-  let posAD := chainBackbone td chain1 names
-  let posAR := chainBackbone tr chain1 names
-  let posBD := chainBackbone td chain2 names
-  let posBR := chainBackbone tr chain2 names
-  -- if self.check_residues(**kwargs) is False: get_identical_atoms for both chains
-  let same ← checkResidues td tr (some names) enforce
-  let (aD, aR, bD, bR) ←
-    if same then pure (posAD, posAR, posBD, posBR)
-    else do
-      let a ← identicalAtoms td tr chain1 names
-      let b ← identicalAtoms td tr chain2 names
-      pure (a.map (·.1), a.map (·.2), b.map (·.1), b.map (·.2))
+  -- (the positional `sql.get('x,y,z', chainID=…)` results are overwritten below: they do not reach the kernel)
+  -- self.check_residues(**kwargs): raises when enforcement is on, otherwise only warns
+  let _ ← checkResidues td tr (some names) enforce
+  -- xyz_decoy_A, xyz_ref_A = get_identical_atoms(sql_decoy, sql_ref, chain1); same for chain2
+  let a ← identicalAtoms td tr chain1 names
+  let b ← identicalAtoms td tr chain2 names
+  let (aD, aR, bD, bR) := (a.map (·.1), a.map (·.2), b.map (·.1), b.map (·.2))
   -- long chain: atom counts of the reference, first chain when equal
   let nA := (chainRows tr chain1).length
   let nB := (chainRows tr chain2).length
